@@ -409,6 +409,29 @@ def rule_K3(chk, eng, cached):
 
 
 # ----------------------------------------------------------------------------- K4
+def rule_K5(chk, prog):
+    """Objects that serve as components of cache keys keep the equality they are created with.  The memoised functions are keyed by
+    symmetry classes (identity of the class object), configs, _struct/_slc/_Fusion named tuples (structural equality).  A
+    user-defined __eq__/__hash__ on the symmetry classes or their metaclass (e.g. "equal if SYM_ID is equal") lets two different
+    group laws share one key; on the named tuples it could identify different structures."""
+    chk.rule("K5", "types whose objects are cache-key components define no __eq__/__hash__ of their own", floor=10)
+    n = 0
+    for m in prog.modules.values():
+        if not (m.name.startswith("yastn.sym") or m.name in ("yastn.tensor._auxiliary", "yastn.tensor._legs", "yastn.tensor._merging")):
+            continue
+        for ci in m.classes.values():
+            is_key_type = m.name.startswith("yastn.sym") or any("NamedTuple" in b_ for b_ in ci.bases) or ci.name in ("_Fusion", "_struct", "_slc", "_config")
+            if not is_key_type:
+                continue
+            n += 1
+            own = [nm for nm in ("__eq__", "__hash__", "__ne__") if nm in ci.methods and ci.methods[nm].cls is ci]
+            chk.verdict("K5", ci.methods[own[0]] if own else (next(iter(ci.methods.values())) if ci.methods else chk.prog.func("yastn.tensor._control_lru", "clear_cache")),
+                        f"{m.name}.{ci.name}: equality is the default one", False if own else True,
+                        f"class {ci.name} defines {', '.join(own)}: objects of this type are components of lru_cache keys; with a user-defined equality two "
+                        f"different symmetries / structures can share one cache entry and receive each other's metadata")
+    chk.require(n >= 10, f"K5: only {n} key types found")
+
+
 def rule_K4(chk, prog, cached):
     chk.rule("K4", "set_cache_maxsize/clear_cache/get_cache_info pair every memoised function with itself and "
              "enumerate all memoised functions of the imported modules", floor=40)
@@ -622,6 +645,7 @@ def run(chk):
     rule_K2(chk, eng, cached)
     rule_K3(chk, eng, cached)
     rule_K4(chk, prog, cached)
+    rule_K5(chk, prog)
     # NamedTuple eq/hash overrides
     for cname, mod in (("_struct", "yastn.tensor._auxiliary"), ("_slc", "yastn.tensor._auxiliary"),
                        ("_config", "yastn.tensor._auxiliary"), ("_Fusion", "yastn.tensor._merging")):
